@@ -810,6 +810,52 @@ def run_r7(ctx, rule):
         rule.check(found_w and b"p" in words and word in words, "%s/framing" % mod, "%s: the header is written as 'p %s ..' and parsed as the words 'p', '%s' (reader words %s)" % (mod, word.decode(), word.decode(), sorted(words)), wf[0].loc())
 
 
+# ---- R8: sibling agreement of the two whole-file builders ------------------------------------------------
+def run_r8(ctx, rule):
+    """ascii::Parser::parse and binary::Parser::parse assemble the same Aig from the same sequence of sections; the
+    writers emit what either of them must read back.  Cross-check (the two are independent implementations of one
+    interface): same section calls at the same loop nesting, same number of loops per nesting depth -- e.g. the
+    distribution of justice literals over the declared property sizes needs the inner `skip full properties` loop in both."""
+    facts = ctx.facts
+    sigs = {}
+    for mod in ("ascii", "binary"):
+        fs = [f for i, f in facts.fns.items() if norm(i) == "flussab_aiger::%s::Parser::parse" % mod]
+        if not fs:
+            rule.bad("%s/parse-anchor" % mod, "anchor missing: %s::Parser::parse" % mod, kind="anchor-missing")
+            return
+        f = fs[0]
+        c = cfg(f)
+        loops = c.loops()
+        depth = lambda bb: sum(1 for body in loops.values() if bb in body)
+        calls = []
+        for bb, t in f.calls():
+            cn = norm(util.cname(t))
+            if cn.startswith("flussab_aiger::%s::" % mod):
+                calls.append((depth(bb), cn[len("flussab_aiger::%s::" % mod):]))
+        # and_gates of the binary format are delta encoded, the ascii section carries explicit outputs: same role
+        # (the loop over the explicit input section exists in the ascii format only, see below)
+        own = lambda body: any(norm(util.cname(t)).endswith("ParseInputs::next_input") for bb, t in f.calls() if bb in body)
+        sigs[mod] = (sorted(calls), sorted(depth(h) for h, body in loops.items() if not own(body)))
+    (ca, la), (cb, lb) = sigs["ascii"], sigs["binary"]
+    # the one legitimate difference (frozen, confirmed by reading): the ascii format lists its inputs explicitly, the
+    # binary format implies them -- one more section loop and its three calls on the ascii side, a direct step to the
+    # latch section on the binary side
+    ASCII_ONLY = [(0, "ParseInputs::latches"), (0, "Parser::inputs"), (1, "ParseInputs::next_input")]
+    BINARY_ONLY = [(0, "Parser::latches")]
+    for x in ASCII_ONLY:
+        if x in ca:
+            ca.remove(x)
+    for x in BINARY_ONLY:
+        if x in cb:
+            cb.remove(x)
+
+    rule.check(la == lb, "parse/loop-nesting", "ascii and binary Parser::parse have the same loops at the same nesting depth (ascii %s, binary %s)" % (la, lb))
+    only_a = [x for x in ca if x not in cb]
+    only_b = [x for x in cb if x not in ca]
+    rule.check(not only_a and not only_b, "parse/section-calls", "ascii and binary Parser::parse call the same section iterators at the same loop depth (only ascii: %s; only binary: %s)" % (only_a[:4], only_b[:4]))
+    rule.note("section_calls", len(ca))
+
+
 def run(ctx):
     r1 = ctx.rule("C03-R1", "BTOR2 keywords: writer and reader tables are the same bijection and cover every variant", floor=130)
     run_r1(ctx, r1)
@@ -821,6 +867,8 @@ def run(ctx):
     run_r4(ctx, r4)
     r4b = ctx.rule("C03-R4b", "binary varint: continuation-bit protocol (writer's last group < 0x80, all bits emitted, same shift and masks as the reader)", floor=5)
     run_r4b(ctx, r4b)
+    r8 = ctx.rule("C03-R8", "sibling agreement: the ascii and the binary whole-file parser have the same section / loop structure", floor=2)
+    run_r8(ctx, r8)
     r5 = ctx.rule("C03-R5", "AIGER header: fields parsed in the written order; optional tail agrees (5 required fields)", floor=6)
     run_r5(ctx, r5)
     r6 = ctx.rule("C03-R6", "latch reset forms agree", floor=4)
